@@ -5,7 +5,7 @@ Ev == TraceLog[l]
 
 TReset == Ev.e = "Reset" /\ Setup("bg", 0)
 TSetup == Ev.e = "Setup" /\ Setup(Ev.mode, Ev.filter)
-TLogBegin == Ev.e = "LogBegin" /\ LogBegin(Ev.k, Ev.seq, Ev.level, Ev.plen, Ev.on)
+TLogBegin == Ev.e = "LogBegin" /\ LogBegin(Ev.k, Ev.seq, Ev.level, Ev.plen, Ev.sl, Ev.on)
 TLogEnd == Ev.e = "LogEnd" /\ LogEnd(Ev.k, Ev.seq)
 TWrite == Ev.e = "Write" /\ Write(Ev)
 TSetLevel == Ev.e = "SetLevel" /\ SetLevel(Ev.level, Ev.rc)
@@ -13,13 +13,13 @@ TCleanUpBegin == Ev.e = "CleanUpBegin" /\ UNCHANGED lvars
 TCleanUpRet == Ev.e = "CleanUpRet" /\ CleanUpRet
 (* direct formatter call: an error return is only acceptable for buffers too small to hold the prefix *)
 TFmt == /\ Ev.e = "Fmt"
-        /\ IF Ev.rc # 0 THEN Ev.total < 120
-           ELSE Ev.written = Ev.len /\ FixedBufferLine(Ev, Ev.total, Ev.level, Ev.plen)
+        /\ IF Ev.rc # 0 THEN Ev.total < 120 + Ev.sl
+           ELSE Ev.written = Ev.len /\ FixedBufferLine(Ev, Ev.total, Ev.level, Ev.plen, Ev.sl)
         /\ UNCHANGED lvars
 (* the no-alloc logger formats into a fixed 8192-byte buffer *)
 TNoAlloc == /\ Ev.e = "NoAlloc"
             /\ IF Ev.level > Ev.filter THEN Ev.len = 0
-               ELSE FixedBufferLine(Ev, 8192, Ev.level, Ev.plen)
+               ELSE FixedBufferLine(Ev, 8192, Ev.level, Ev.plen, Ev.sl)
             /\ UNCHANGED lvars
 TEnd == Ev.e = "End" /\ Ev.live = 0 /\ Ev.unjoined = 0 /\ (\A k \in Producers : pend[k] = <<>>) /\ UNCHANGED lvars
 
